@@ -242,3 +242,33 @@ func Verif_C16_notice_survives_an_unrelated_socket_closing() {
 	verifapi.Quiesce()
 	verifapi.Assert("no-lock-left-held", verifapi.HeldLocks() == 0)
 }
+
+// Verif_C16_notice_for_a_packet_that_came_over_the_wire: the datagram for the unbound service arrives as
+// WIRE bytes from a neighbour (real decoder, then the real handler), with a service name of any length
+// 0..8 - the empty name included: the neighbour is sent exactly one 'service unknown' notice naming the
+// original source and destination.
+func Verif_C16_notice_for_a_packet_that_came_over_the_wire() {
+	sender := verifNetceptor("B")
+	n := verifNetceptor("A")
+	s := n.s
+	cb := n.verifConn("B", 1)
+	s.routingTable["B"] = "B"
+	sender.s.AddNameHash("A")
+	toService := verifService()
+	orig := &MessageData{FromNode: "B", ToNode: "A", FromService: "src", ToService: toService, HopsToLive: 5, Data: []byte{1}}
+	wire, err := sender.s.translateDataFromMessage(orig)
+	verifapi.Assert("encoded", err == nil)
+	md, derr := s.translateDataToMessage(wire)
+	verifapi.Cover("wire-packet-decoded-or-not")
+	verifapi.Assert("well-formed-packet-is-decoded-whatever-the-service-name", derr == nil && md != nil)
+	_ = s.handleMessageData(md)
+	verifapi.Quiesce()
+	back := verifTake(cb)
+	verifapi.Assert("one-notice-sent-back", len(back) == 1)
+	if len(back) == 1 {
+		nm, nerr := s.translateDataToMessage(back[0])
+		um := &UnreachableMessage{}
+		verifapi.Assert("notice-names-the-original-packet", verifapi.All(nerr == nil, nm.ToNode == "B", nm.ToService == "unreach",
+			verifapi.FromJSON(nm.Data, um), um.Problem == ProblemServiceUnknown, um.FromNode == "B", um.FromService == "src", um.ToNode == "A", um.ToService == toService))
+	}
+}
